@@ -62,6 +62,7 @@ pub fn c01_case(bytes: &[u8], stats: &mut Stats, counting: bool, cfg: &GenConfig
     let adapter = Arc::new(GraphAdapter::new(case.world.clone()));
     let out = engine::execute(adapter, compiled.iq.clone(), engine::args_to_engine(&case.args), ROW_LIMIT * 2);
     let engine_rows: Vec<Row> = match out {
+        ExecOutcome::Budget => return Verdict::Discard("too-much-work".into()),
         ExecOutcome::Rows(r) => r.iter().map(engine::row_from_engine).collect(),
         ExecOutcome::ArgError(e) => {
             return Verdict::Discard(format!("args-rejected(C12):{}", first_line(&e).chars().take(40).collect::<String>()));
@@ -127,6 +128,7 @@ pub fn c09_case(bytes: &[u8], stats: &mut Stats, counting: bool, cfg: &GenConfig
         }
     }
     match out {
+        ExecOutcome::Budget => return Verdict::Discard("too-much-work".into()),
         ExecOutcome::Rows(rows) => {
             if counting {
                 let stress = case.features.tag_filters > 0
@@ -220,6 +222,7 @@ pub fn c09_loose_case(bytes: &[u8], stats: &mut Stats, counting: bool, cfg: &Gen
         }
     }
     match out {
+        ExecOutcome::Budget => return Verdict::Discard("too-much-work".into()),
         ExecOutcome::Rows(_) => Verdict::Pass,
         ExecOutcome::ArgError(e) => Verdict::Discard(format!("args-rejected(C12):{}", first_line(&e).chars().take(40).collect::<String>())),
         ExecOutcome::Panic(p, _) => {
@@ -288,10 +291,10 @@ pub fn c09(ctx: &CheckCtx) -> i32 {
          there: distinct accepted query texts).",
     );
     report.assume("the main search excludes by construction the two listed findings (ordering filters on list-typed properties, invalid regex arguments); a second, smaller search includes them and tolerates exactly their signatures");
-    let cases = ctx.cases(40_000, 2_000_000);
+    let cases = ctx.cases(250_000, 4_000_000);
     let res = search(ctx, "c09", cases, WORLD_MIN_LEN, WORLD_MAX_LEN, |b, s, counting| c09_case(b, s, counting, &cfg));
     report.absorb(res, &|b| render_world_case(b, &cfg));
-    let cases = ctx.cases(8_000, 400_000);
+    let cases = ctx.cases(30_000, 600_000);
     let res = search(ctx, "c09-listed", cases, WORLD_MIN_LEN, WORLD_MAX_LEN, |b, s, counting| {
         let mut scratch = Stats::default();
         let v = c09_case(b, &mut scratch, counting, &stress_cfg);
@@ -302,7 +305,7 @@ pub fn c09(ctx: &CheckCtx) -> i32 {
     });
     report.absorb(res, &|b| render_world_case(b, &stress_cfg));
     // loose mode: the quantifier is "every query the frontend accepts", not "every query the harness considers well-typed"
-    let cases = ctx.cases(120_000, 3_000_000);
+    let cases = ctx.cases(400_000, 6_000_000);
     let res = search(ctx, "c09-loose", cases, WORLD_MIN_LEN, WORLD_MAX_LEN, |b, s, counting| c09_loose_case(b, s, counting, &loose_cfg));
     report.absorb(res, &|b| {
         engine::catch(|| render_world_case(b, &loose_cfg)).unwrap_or_else(|_| json!({"note": "loose query not renderable by the annotator"}))
@@ -332,7 +335,7 @@ pub fn c01(ctx: &CheckCtx) -> i32 {
     report.assume("@optional together with @recurse on one edge behaves as @recurse");
     report.assume("a property selected without any directive is legal and ignored");
     report.assume("data values are Int/Float/String/Boolean and lists of them (no ID, no enums)");
-    let cases = ctx.cases(40_000, 2_000_000);
+    let cases = ctx.cases(250_000, 5_000_000);
     let res = search(ctx, "c01", cases, WORLD_MIN_LEN, WORLD_MAX_LEN, |b, s, counting| c01_case(b, s, counting, &cfg));
     report.absorb(res, &|b| render_world_case(b, &cfg));
     report.extra.insert("generator_bounds".into(), json!({"max_query_vertices": cfg.query.max_vertices, "max_data_vertices": cfg.data.max_vertices}));
